@@ -31,14 +31,17 @@ def hx(s):
 
 
 # ---------------------------------------------------------------- handler functions (module level: picklable)
-def text_reader(file_info, **kwargs):
+def text_reader(file_info, tag="r0", **kwargs):
+    """the read argument `tag` is visible in what is returned"""
     with open(file_info.path) as f:
-        return json.load(f)
+        d = json.load(f)
+    return {"rd": tag, "w": d["w"], "d": d["d"]}
 
 
-def text_writer(data, file_info, indent=None, **kwargs):
+def text_writer(data, file_info, prefix="w0", **kwargs):
+    """the write argument `prefix` is stored in the file"""
     with open(file_info.path, "w") as f:
-        json.dump(data, f, indent=indent, sort_keys=True)
+        json.dump({"w": prefix, "d": data}, f, sort_keys=True)
 
 
 def post_fn(file_info, data):
@@ -50,7 +53,11 @@ def conv_fn(data):
 
 
 def token(data):
-    """model token of a data object: wrappers of post_reader / convert function stay visible"""
+    """model token of a data object: wrappers of reader / writer arguments, post_reader and convert function stay visible"""
+    if isinstance(data, dict) and sorted(data) == ["d", "rd", "w"]:
+        return f"R{data['rd']}.W{data['w']}." + token(data["d"])
+    if isinstance(data, dict) and sorted(data) == ["d", "w"]:
+        return f"W{data['w']}." + token(data["d"])
     if isinstance(data, dict) and list(data) == ["post"]:
         return "P." + token(data["post"])
     if isinstance(data, dict) and list(data) == ["G"]:
@@ -70,38 +77,79 @@ def structure(raw):
         return pre + "?:" + raw[:16].hex()
 
 
-# ---------------------------------------------------------------- the three filesets
+# ---------------------------------------------------------------- the filesets
+# kind: which part of a key (start, end, sat) the template can carry
+#   sameday = start + end time of day (no end date), full = start + end, start = start only, day = the day only
 SETS = {
-    "A": dict(tmpl="A/{year}/{month}/{day}/{sat}_{hour}{minute}{second}-{end_hour}{end_minute}{end_second}.dat", z=False, p=False),
-    "B": dict(tmpl="B/{year}/{doy}/{sat}/{hour}{minute}{second}_{end_hour}{end_minute}{end_second}.json", z=False, p=False),
+    "A": dict(tmpl="A/{year}/{month}/{day}/{sat}_{hour}{minute}{second}-{end_hour}{end_minute}{end_second}.dat", z=False, p=False,
+              w="wa", r="ra", kind="sameday"),
+    "B": dict(tmpl="B/{year}/{doy}/{sat}/{hour}{minute}{second}_{end_hour}{end_minute}{end_second}.json", z=False, p=False,
+              w=None, r=None, kind="sameday"),
     "C": dict(tmpl="C/{sat}/{year}{month}{day}{hour}{minute}{second}-{end_year}{end_month}{end_day}{end_hour}{end_minute}{end_second}.dat.gz",
-              z=True, p=True),
+              z=True, p=True, w="wc", r=None, kind="full"),
+    # (temporal placeholders only in the file name: find() prunes directories by their start fields, C01 territory)
+    "D": dict(tmpl="D/{sat}/{year}{doy}-{end_year}{end_doy}_{hour}{minute}{second}-{end_hour}{end_minute}{end_second}.dat", z=False, p=False,
+              w=None, r="rd", kind="full"),
+    "E": dict(tmpl="E/{sat}/{year}{month}{day}T{hour}{minute}{second}.dat", z=False, p=False, w="we", r=None, kind="start"),
+    "F": dict(tmpl="F/{year}/{month}/{sat}_{day}.dat", z=False, p=False, w=None, r=None, kind="day"),
 }
+UNFILLED_TMPL = "G/{orbit}/{year}{month}{day}{hour}{minute}{second}.dat"      # a placeholder no source file can fill
+
+
+def wtag(sid):
+    return SETS[sid]["w"] or "w0"
+
+
+def rtag(sid):
+    return SETS[sid]["r"] or "r0"
 
 
 def own_name(sid, key):
-    """independent naming for the three templates"""
+    """naming of the six templates, independent of typhon (strftime only)"""
     s, e, sat = key
     if sid == "A":
         return f"A/{s:%Y}/{s:%m}/{s:%d}/{sat}_{s:%H%M%S}-{e:%H%M%S}.dat"
     if sid == "B":
         return f"B/{s:%Y}/{s:%j}/{sat}/{s:%H%M%S}_{e:%H%M%S}.json"
-    return f"C/{sat}/{s:%Y%m%d%H%M%S}-{e:%Y%m%d%H%M%S}.dat.gz"
+    if sid == "C":
+        return f"C/{sat}/{s:%Y%m%d%H%M%S}-{e:%Y%m%d%H%M%S}.dat.gz"
+    if sid == "D":
+        return f"D/{sat}/{s:%Y}{s:%j}-{e:%Y}{e:%j}_{s:%H%M%S}-{e:%H%M%S}.dat"
+    if sid == "E":
+        return f"E/{sat}/{s:%Y%m%d}T{s:%H%M%S}.dat"
+    return f"F/{s:%Y}/{s:%m}/{sat}_{s:%d}.dat"
+
+
+def rekey(sid, key):
+    """the key under which fileset `sid` knows a file generated from `key` (None: the template cannot carry it)"""
+    s, e, sat = key
+    kind = SETS[sid]["kind"]
+    if kind == "full":
+        return key
+    if kind == "sameday":
+        return key if s.date() == e.date() and s <= e else None
+    if kind == "start":
+        return (s, s, sat)
+    d0 = dt.datetime(s.year, s.month, s.day)
+    return (d0, d0, sat)
 
 
 def key_token(key):
     return f"{us(key[0])}_{us(key[1])}_{key[2]}"
 
 
-def make_sets(root, worker_type):
+def make_sets(root, worker_type, ids):
     from typhon.files import FileSet, FileHandler
     out = {}
-    for sid, cfg in SETS.items():
+    for sid in ids:
+        cfg = SETS[sid]
         kw = {}
         if cfg["p"]:
             kw["post_reader"] = post_fn
-        if sid == "B":
-            kw["write_args"] = {"indent": 1}
+        if cfg["w"]:
+            kw["write_args"] = {"prefix": cfg["w"]}
+        if cfg["r"]:
+            kw["read_args"] = {"tag": cfg["r"]}
         out[sid] = FileSet(os.path.join(root, cfg["tmpl"]), handler=FileHandler(reader=text_reader, writer=text_writer),
                            name=sid, worker_type=worker_type, max_processes=2, max_threads=2, **kw)
     return out
@@ -117,7 +165,7 @@ def walk(root):
     return out
 
 
-def decode_expect(sid, struct):
+def decode_expect(sid, struct, tag=None):
     """what reading `struct` through fileset sid returns (token) or None = raises (oracle)"""
     z, p = SETS[sid]["z"], SETS[sid]["p"]
     if z:
@@ -128,6 +176,7 @@ def decode_expect(sid, struct):
         if not struct.startswith("r:"):
             return None
         tok = struct[2:]
+    tok = f"R{tag or rtag(sid)}." + tok
     return ("P." + tok) if p else tok
 
 
@@ -135,52 +184,75 @@ def overlaps(key, qs, qe):
     return key[0] <= qe and qs <= key[1]
 
 
+HALF = dt.timedelta(milliseconds=500)
+
+
 # ---------------------------------------------------------------- one history
 def history_case(ck, scratch, nops, use_model=True, pool="thread"):
-    from typhon.files.handlers.common import FileInfo
+    from typhon.files import FileSet, FileHandler
     rng = ck.rng
     root = tempfile.mkdtemp(dir=scratch)
-    sets = make_sets(root, pool)
-    oracle = {sid: {} for sid in SETS}          # key -> structure
-    lines = [f"fileset {sid} {int(c['z'])} {int(c['p'])}" for sid, c in SETS.items()]
+    ids = sorted(rng.sample(list(SETS), rng.choice([3, 3, 4])))
+    sets = make_sets(root, pool, ids)
+    oracle = {sid: {} for sid in ids}           # key (as the fileset knows it) -> structure
+    lines = [f"fileset {sid} {int(SETS[sid]['z'])} {int(SETS[sid]['p'])} {wtag(sid)} {rtag(sid)}" for sid in ids]
     checks = []                                 # (line index, expected output, description)
-    named = set()
+    named, aliased = set(), set()
     ops = []
-    day0 = dt.datetime(rng.choice([2015, 2016, 2020]), rng.choice([1, 2, 3, 12]), rng.choice([1, 28, 29 if False else 27, 31 if False else 15]))
+    year = rng.choice([2015, 2016, 2017, 2019, 2020])
+    day0 = dt.datetime(year, rng.choice([1, 2, 3, 12, 12]), rng.choice([1, 28, 27, 15]))
+    if rng.random() < 0.35:
+        day0 = dt.datetime(year, 12, 31)          # doy 365 / 366
     slots = [day0 + dt.timedelta(days=rng.choice([0, 0, 1, 2, 40, 366]), hours=h) for h in range(0, 22, 2)]
-    case = {"op": "history", "pool": pool, "ops": ops}
+    case = {"op": "history", "pool": pool, "sets": ids, "ops": ops}
     counter = [0]
 
     def ensure_name(sid, key):
         if (sid, key) in named:
             return
         named.add((sid, key))
-        real = os.path.relpath(sets[sid].get_filename((key[0], key[1]), fill={"sat": key[2]}), root)
-        if real != own_name(sid, key):
-            ck.violation("naming", f"fileset {sid} names {key} as {real}, expected {own_name(sid, key)}", case)
-        lines.append(f"name {sid} {key_token(key)} {hx(real)}")
+        lines.append(f"name {sid} {key_token(key)} {hx(own_name(sid, key))}")
 
-    def new_key():
+    def check_generated(sid, key, rep):
+        """the name the real template generates from `key` must be the independent name of its representation"""
+        real = os.path.relpath(sets[sid].get_filename((key[0], key[1]), fill={"sat": key[2]}), root)
+        if real != own_name(sid, rep):
+            ck.violation("naming", f"fileset {sid} names {key[0]}..{key[1]} ({key[2]}) as {real}, expected {own_name(sid, rep)}", case)
+            return False
+        return True
+
+    def new_key(sid):
+        kind = SETS[sid]["kind"]
+        sat = rng.choice(["A", "B", "noaa15"])
+        if kind == "full" and rng.random() < 0.45:
+            y = rng.choice([2015, 2016, 2017, 2019, 2020])
+            s = dt.datetime(y, 12, rng.choice([30, 31, 31]), rng.choice([0, 11, 22, 23]), rng.choice([0, 30]))
+            e = s + dt.timedelta(days=rng.choice([0, 1, 1, 2, 3]), hours=rng.choice([0, 1, 5]), minutes=rng.choice([0, 7]), seconds=rng.choice([0, 5]))
+            return (s, e, sat)
         s = rng.choice(slots) + dt.timedelta(minutes=rng.choice([0, 10, 30]))
         e = s + dt.timedelta(minutes=rng.choice([0, 5, 20, 59]), seconds=rng.choice([0, 0, 59]))
-        return (s, e, rng.choice(["A", "B", "noaa15"]))
+        return rekey(sid, (s, e, sat))
 
     def window():
         if rng.random() < 0.3:
-            return (slots[0] - dt.timedelta(days=1, seconds=1), slots[-1] + dt.timedelta(days=400, seconds=1))
-        a = rng.choice(slots) - dt.timedelta(seconds=1)
-        return (a, a + dt.timedelta(hours=rng.choice([1, 3, 7, 30]), seconds=2))
+            return (dt.datetime(2014, 1, 1) - HALF, dt.datetime(2023, 1, 1) + HALF)
+        allk = [k for sid in ids for k in oracle[sid]]
+        if allk and rng.random() < 0.5:
+            k = rng.choice(allk)
+            return (k[0] - dt.timedelta(hours=rng.choice([0, 1, 30])) - HALF, k[1] + dt.timedelta(hours=rng.choice([0, 3, 50])) + HALF)
+        a = rng.choice(slots) - HALF
+        return (a, a + dt.timedelta(hours=rng.choice([1, 3, 7, 30])) + 2 * HALF)
 
     def snapshot(tag):
         got = walk(root)
         want = {}
-        for sid in SETS:
+        for sid in ids:
             for key, st in oracle[sid].items():
                 want[own_name(sid, key)] = st
         if got != want:
             miss = sorted(set(want) - set(got))[:3]
             extra = sorted(set(got) - set(want))[:3]
-            diff = [k for k in got if k in want and got[k] != want[k]][:3]
+            diff = [(k, got[k][:40], want[k][:40]) for k in got if k in want and got[k] != want[k]][:2]
             ck.violation("conservation", f"after {tag}: missing {miss} extra {extra} changed {diff}", case)
             return False
         lines.append("ls")
@@ -188,31 +260,73 @@ def history_case(ck, scratch, nops, use_model=True, pool="thread"):
         checks.append((len(lines) - 1, exp, f"listing after {tag}"))
         return True
 
+    def select(sid, for_move):
+        """choose a selection mode; returns (kwargs for the real call, selected keys, description)"""
+        mode = rng.choice(["period", "period", "files", "files", "filters", "filters+period"])
+        kw = {"no_files_error": False}
+        keys = list(oracle[sid])
+        if mode == "period":
+            qs, qe = window()
+            kw.update(start=qs, end=qe)
+            return mode, kw, [k for k in keys if overlaps(k, qs, qe)], (qs, qe)
+        if mode == "files":
+            found = list(sets[sid].find(no_files_error=False))
+            how = rng.choice(["empty", "subset", "subset", "all-reversed"])
+            if how == "empty":
+                chosen = []
+            elif how == "subset":
+                chosen = rng.sample(found, rng.randint(0, len(found))) if found else []
+            else:
+                chosen = list(reversed(found))
+            rels = {os.path.relpath(f.path, root) for f in chosen}
+            return mode + "/" + how, {"files": chosen}, [k for k in keys if own_name(sid, k) in rels], None
+        sats = ["A", "B", "noaa15"]
+        f = rng.choice([("w1", rng.choice(sats)), ("wl", rng.sample(sats, 2)), ("b1", rng.choice(sats))])
+        if f[0] == "w1":
+            kw["filters"] = {"sat": f[1]}
+            cond = lambda k: k[2] == f[1]
+        elif f[0] == "wl":
+            kw["filters"] = {"sat": list(f[1])}
+            cond = lambda k: k[2] in f[1]
+        else:
+            kw["filters"] = {"!sat": f[1]}
+            cond = lambda k: k[2] != f[1]
+        if mode == "filters+period":
+            qs, qe = window()
+            kw.update(start=qs, end=qe)
+            return mode, kw, [k for k in keys if cond(k) and overlaps(k, qs, qe)], None
+        return mode, kw, [k for k in keys if cond(k)], None
+
     try:
         for _ in range(nops):
             r = rng.random()
             if r < 0.35 or not any(oracle.values()):
-                sid = rng.choice(list(SETS))
-                key = rng.choice(list(oracle[sid])) if oracle[sid] and rng.random() < 0.25 else new_key()
+                sid = rng.choice(ids)
+                key = rng.choice(list(oracle[sid])) if oracle[sid] and rng.random() < 0.25 else new_key(sid)
                 counter[0] += 1
                 data = rng.choice([{"n": counter[0], "v": [1.5, None, "x"]}, [counter[0], "ü"], {"k": {"deep": counter[0]}}, counter[0], "s%d" % counter[0]])
+                if not check_generated(sid, key, key):
+                    return
                 ensure_name(sid, key)
                 fs = sets[sid]
+                override = rng.choice([None, None, "px"])
                 try:
-                    if rng.random() < 0.5:
+                    if override is None and rng.random() < 0.5:
                         fs[key[0]:key[1], {"sat": key[2]}] = data
-                    else:
+                    elif override is None:
                         fs.write(data, fs.get_filename((key[0], key[1]), fill={"sat": key[2]}))
+                    else:
+                        fs.write(data, fs.get_filename((key[0], key[1]), fill={"sat": key[2]}), prefix=override)      # per-call write_args
                 except Exception as e:      # noqa
                     ck.violation("write-raised", f"write to {sid} raised {type(e).__name__}: {e}", case)
                     return
-                oracle[sid][key] = ("z:" if SETS[sid]["z"] else "") + "r:" + token(data)
-                ops.append(["write", sid, key_token(key), token(data)])
-                lines.append(f"write {sid} {key_token(key)} {token(data)}")
+                oracle[sid][key] = ("z:" if SETS[sid]["z"] else "") + f"r:W{override or wtag(sid)}." + token(data)
+                ops.append(["write", sid, key_token(key), token(data), override])
+                lines.append(f"write {sid} {key_token(key)} {token(data)} {override or '-'}")
                 checks.append((len(lines) - 1, "ok", "write"))
                 tag = f"write {sid}"
             elif r < 0.5:
-                sid = rng.choice([s for s in SETS if oracle[s]] or ["A"])
+                sid = rng.choice([s for s in ids if oracle[s]] or ids[:1])
                 qs, qe = window()
                 fs = sets[sid]
                 found = list(fs.find(qs, qe, no_files_error=False))
@@ -223,80 +337,113 @@ def history_case(ck, scratch, nops, use_model=True, pool="thread"):
                 ops.append(["find", sid, us(qs), us(qe)])
                 lines.append(f"find {sid} {us(qs)} {us(qe)}")
                 checks.append((len(lines) - 1, " ".join(f"{hx(p)}:{a}_{b}_{s}" for p, a, b, s in sorted(got)) or "-", "find"))
-                # read every found file
                 for i in found:
                     rel = os.path.relpath(i.path, root)
-                    key = next(k for k in oracle[sid] if own_name(sid, k) == rel) if any(own_name(sid, k) == rel for k in oracle[sid]) else None
+                    key = next((k for k in oracle[sid] if own_name(sid, k) == rel), None)
+                    tg = rng.choice([None, None, "tx"])
                     try:
-                        tok = token(fs.read(i))
+                        tok = token(fs.read(i) if tg is None else fs.read(i, tag=tg))          # per-call read_args
                     except Exception:      # noqa
                         tok = None
                     if key is not None:
-                        want_tok = decode_expect(sid, oracle[sid][key])
+                        want_tok = decode_expect(sid, oracle[sid][key], tg)
                         if tok != want_tok:
-                            ck.violation("read", f"read({rel}) = {tok} expected {want_tok}", case)
-                    lines.append(f"read {sid} {hx(rel)}")
+                            ck.violation("read", f"read({rel}, tag={tg}) = {tok} expected {want_tok}", case)
+                    lines.append(f"read {sid} {hx(rel)} {tg or '-'}")
                     checks.append((len(lines) - 1, tok if tok is not None else "raise", f"read {rel}"))
                 tag = f"find {sid}"
             elif r < 0.8:
-                src = rng.choice([s for s in SETS if oracle[s]] or ["A"])
-                dst = rng.choice([s for s in SETS if s != src])
+                src = rng.choice([s for s in ids if oracle[s]] or ids[:1])
+                if rng.random() < 0.07 and oracle[src]:
+                    # a target with a placeholder the source files cannot fill: must raise, nothing may change
+                    g = FileSet(os.path.join(root, UNFILLED_TMPL), handler=FileHandler(reader=text_reader, writer=text_writer), name="G")
+                    try:
+                        sets[src].move(g, copy=rng.random() < 0.5, worker_type="thread")
+                        ck.violation("unfilled-accepted", f"move {src} -> template with an unfillable placeholder did not raise", case)
+                        return
+                    except Exception as e:      # noqa
+                        if type(e).__name__ != "UnfilledPlaceholderError":
+                            ck.count("move-unfilled/" + type(e).__name__)
+                    ops.append(["move-unfilled", src])
+                    if not snapshot(f"move {src} -> unfillable template"):
+                        return
+                    continue
+                dst = rng.choice([s for s in ids if s != src])
                 copy = rng.random() < 0.4
-                qs, qe = window()
-                sel = [k for k in oracle[src] if overlaps(k, qs, qe)]
+                mode, kw, sel, period = select(src, True)
+                reps = {k: rekey(dst, k) for k in sel}
+                if any(v is None for v in reps.values()) or len(set(reps.values())) != len(reps):
+                    ck.count("history/skipped-move-not-representable-or-colliding")
+                    continue
                 conv = rng.choice([0, 0, 1, 2])
                 if SETS[dst]["z"] != SETS[src]["z"] and rng.random() < 0.7:
                     conv = rng.choice([1, 2])           # changing the compression suffix needs a conversion to stay readable
                 if conv and any(decode_expect(src, oracle[src][k]) is None for k in sel):
                     conv = 0
+                ok = True
                 for k in sel:
-                    ensure_name(dst, k)
-                kw = {"start": qs, "end": qe, "no_files_error": False}
+                    ok = ok and check_generated(dst, k, reps[k])
+                    ensure_name(dst, reps[k])
+                    if key_token(k) != key_token(reps[k]) and (dst, k) not in aliased:
+                        aliased.add((dst, k))
+                        lines.append(f"alias {dst} {key_token(k)} {hx(own_name(dst, reps[k]))}")
+                if not ok:
+                    return
+                string_target = rng.random() < 0.25
+                target = os.path.join(root, SETS[dst]["tmpl"]) if string_target else sets[dst]
+                wt = wtag(src) if string_target else wtag(dst)          # a string target becomes a copy of the SOURCE fileset
                 if pool == "thread":
                     kw["worker_type"] = "thread"
                 try:
-                    ret = sets[src].move(sets[dst], copy=copy, convert={0: False, 1: True, 2: conv_fn}[conv], **kw)
+                    ret = sets[src].move(target, copy=copy, convert={0: False, 1: True, 2: conv_fn}[conv], **kw)
                 except Exception as e:      # noqa
-                    ck.violation("move-raised", f"move {src}->{dst} copy={copy} conv={conv} raised {type(e).__name__}: {e}", case)
+                    ck.violation("move-raised", f"move {src}->{dst} copy={copy} conv={conv} sel={mode} raised {type(e).__name__}: {e}", case)
                     return
                 for k in sel:
                     c = oracle[src][k]
                     if conv:
                         t = decode_expect(src, c)
-                        c = ("z:" if SETS[dst]["z"] else "") + "r:" + (("G." + t) if conv == 2 else t)
-                    oracle[dst][k] = c
+                        c = ("z:" if SETS[dst]["z"] else "") + f"r:W{wt}." + (("G." + t) if conv == 2 else t)
                     if not copy:
                         del oracle[src][k]
-                ops.append(["move", src, dst, int(copy), conv, us(qs), us(qe), len(sel)])
-                lines.append(f"move {src} {dst} {int(copy)} {conv} {us(qs)} {us(qe)}")
+                    oracle[dst][reps[k]] = c
+                ops.append(["move", src, dst, int(copy), conv, mode, len(sel), string_target])
+                ck.count("select/move/" + mode)
+                if period is not None:
+                    lines.append(f"move {src} {dst} {int(copy)} {conv} {wt if string_target else '-'} {us(period[0])} {us(period[1])}")
+                else:
+                    lines.append(f"movefiles {src} {dst} {int(copy)} {conv} {wt if string_target else '-'} " +
+                                 " ".join(hx(own_name(src, k)) for k in sorted(sel)))
                 checks.append((len(lines) - 1, "ok", "move"))
-                tag = f"move {src}->{dst} copy={copy} conv={conv} n={len(sel)}"
+                tag = f"move {src}->{dst} copy={copy} conv={conv} sel={mode} n={len(sel)} string={string_target}"
             else:
-                sid = rng.choice([s for s in SETS if oracle[s]] or ["A"])
+                sid = rng.choice([s for s in ids if oracle[s]] or ids[:1])
                 dry = rng.random() < 0.4
-                qs, qe = window()
-                sel = [k for k in oracle[sid] if overlaps(k, qs, qe)]
-                kw = {"start": qs, "end": qe, "no_files_error": False}
+                mode, kw, sel, period = select(sid, False)
                 if pool == "thread":
                     kw["worker_type"] = "thread"
                 try:
                     with contextlib.redirect_stdout(io.StringIO()):
                         sets[sid].delete(dry_run=dry, **kw)
                 except Exception as e:      # noqa
-                    ck.violation("delete-raised", f"delete {sid} dry={dry} raised {type(e).__name__}: {e}", case)
+                    ck.violation("delete-raised", f"delete {sid} dry={dry} sel={mode} raised {type(e).__name__}: {e}", case)
                     return
                 if not dry:
                     for k in sel:
                         del oracle[sid][k]
-                ops.append(["delete", sid, int(dry), us(qs), us(qe), len(sel)])
-                lines.append(f"delete {sid} {int(dry)} {us(qs)} {us(qe)}")
+                ops.append(["delete", sid, int(dry), mode, len(sel)])
+                ck.count("select/delete/" + mode)
+                if period is not None:
+                    lines.append(f"delete {sid} {int(dry)} {us(period[0])} {us(period[1])}")
+                else:
+                    lines.append(f"deletefiles {sid} {int(dry)} " + " ".join(hx(own_name(sid, k)) for k in sorted(sel)))
                 checks.append((len(lines) - 1, "ok", "delete"))
-                tag = f"delete {sid} dry={dry} n={len(sel)}"
+                tag = f"delete {sid} dry={dry} sel={mode} n={len(sel)}"
             if not snapshot(tag):
                 return
-        nmoves = sum(1 for o in ops if o[0] == "move" and o[-1] > 0)
+        nmoves = sum(1 for o in ops if o[0] == "move" and o[6] > 0)
         ck.case(key=("h", json.dumps(ops)) if nmoves and len(ops) >= 3 else None, kind=f"history/{pool}",
-                sample={"ops": [o[0] for o in ops][:12], "files_at_end": sum(len(v) for v in oracle.values())})
+                sample={"sets": ids, "ops": [o[0] for o in ops][:12], "files_at_end": sum(len(v) for v in oracle.values())})
         if use_model:
             out = ck.driver(lines)
             for idx, exp, what in checks:
